@@ -798,11 +798,15 @@ func RunFrozen(c *Ctx) {
 				}
 			}
 		}
+		if !viaHelper && fi.Obj != nil && c.helpers()[fi.Obj] != nil && !c.helpers()[fi.Obj].escapes {
+			// ... or from option literals as well (a setter shared by the constructor's default and the option)
+			viaHelper = calledOnlyDuringConstruction(c, fi, fs.constructors, 0)
+		}
 		switch {
 		case contains(fs.constructors, root):
 			reason = "constructor " + root
 		case viaHelper:
-			reason = "helper " + root + " called only from constructors"
+			reason = "helper " + root + " called only from constructors / option literals"
 		case isOptionLiteral(fi) || (fi.Parent != nil && isOptionLiteral(fi.Parent)):
 			reason = "option literal returned by " + root + " (applied during construction)"
 		case contains(fs.lazy, fi.Name):
@@ -1202,4 +1206,42 @@ func escapes(fi *FuncInfo) bool {
 		return true
 	})
 	return res
+}
+
+// calledOnlyDuringConstruction: every call of the post-baseline helper h sits in a constructor, in an option literal
+// (applied during construction), or in another such helper.
+func calledOnlyDuringConstruction(c *Ctx, h *FuncInfo, constructors []string, depth int) bool {
+	if depth > 2 || h.Obj == nil {
+		return false
+	}
+	n := 0
+	good := true
+	for _, g := range c.P.Funcs {
+		if g.Body == nil || g.Ctl {
+			continue
+		}
+		info := g.Pkg.TypesInfo
+		ast.Inspect(g.Body, func(nd ast.Node) bool {
+			if lit, ok := nd.(*ast.FuncLit); ok && lit != g.Lit {
+				return false
+			}
+			call, ok := nd.(*ast.CallExpr)
+			if !ok {
+				return true
+			}
+			if f, _ := typeutil.Callee(info, call).(*types.Func); f == nil || f.Origin() != h.Obj {
+				return true
+			}
+			n++
+			switch {
+			case contains(constructors, g.Root().Name):
+			case isOptionLiteral(g) || (g.Parent != nil && isOptionLiteral(g.Parent)):
+			case g.Obj != nil && g != h && c.helpers()[g.Obj] != nil && !c.helpers()[g.Obj].escapes && calledOnlyDuringConstruction(c, g, constructors, depth+1):
+			default:
+				good = false
+			}
+			return true
+		})
+	}
+	return n > 0 && good
 }
